@@ -46,6 +46,15 @@ Latitude (the property leaves these open; every admissible answer is accepted)
     whole codons" and, for a start offset 1/2, no variant touches the first three 5' bases and the 5' exon keeps >= 3 bases.
   * VCF: order of collections and of variants inside a collection is free; records are passed grouped by CHROM; PS is
     either an int attribute or absent (what a FORMAT column without PS gives); nothing is claimed for PS=None.
+
+Findings on the unchanged tree (see classify() and /verif/proposed_fixes/C13-cds-incorporate-start-frame.diff)
+  * K1 (recorded, mechanistic classifier): VariantIntervalCollection.lift_over_location applies the variants left to right
+    while each keeps reference coordinates; wrong as soon as a variant that is not the last one changes length and a
+    later variant's reference interval meets the already shifted block.  Reversing the loop repairs every judged case
+    but four upstream tests (test_variants.py: test_gene_variant_collection, 2x test_annotation_collection,
+    TestAnnotationCollection) pin the wrong block "5-11" of their third transcript.
+  * CDSInterval.incorporate_variants hands frames[0] - on the minus strand the frame of the 3' exon - to
+    construct_frames_from_location as the 5' start frame (incorporate.cds-frame); proposed fix keeps the shimmed suite green.
 """
 import itertools
 
@@ -74,9 +83,9 @@ RULE = (
 )
 SCOPE = {
     "quick": {"N1": 7, "N2": 7, "NR": 1900, "NV": 160, "PAIR_STEP": 5},
-    "thorough": {"N1": 9, "N2": 8, "NR": 26000, "NV": 1600, "PAIR_STEP": 1},
+    "thorough": {"N1": 9, "N2": 8, "NR": 20000, "NV": 1600, "PAIR_STEP": 1},
 }
-FLOOR = {"quick": 4000, "thorough": 20000}
+FLOOR = {"quick": 8000, "thorough": 30000}
 REQUIRED_MONITORS = [
     "alt.single", "alt.collection", "alt.parent", "lift.single", "lift.collection", "lift.deleted-empty", "lift.sequenceless",
     "incorporate.feature", "incorporate.transcript", "incorporate.cds", "incorporate.cds-frame", "incorporate.deleted",
@@ -531,7 +540,8 @@ def _check_intervals(ctx, hap, loc, j, variants_obj, H, tag):
         if exc is None and getattr(new, "cds", None) is not None:
             got = _read(new.cds.chunk_relative_location)[0]
         ctx.check("incorporate.deleted", _is_empty_exc(exc), key=(tag + "transcript-cds-deleted", _multi(H.edits)),
-                  **_detail(H, cds_blocks, strand, exc=repr(exc)[:200] if exc else None, got=got, want=[], where="transcript-cds"))
+                  **_detail(H, cds_blocks, strand, exc=repr(exc)[:200] if exc else None, got=got, want=[], where="transcript-cds",
+                            cds_blocks=[list(b) for b in blocks]))   # the enclosing transcript is lifted by the same call
     else:
         ok_t = _judge_interval(ctx, "incorporate.transcript", tag + "transcript", H, blocks, strand, new, exc, hap.start, cds_blocks=cds_blocks)
         if ok_t and cds_blocks:
@@ -871,7 +881,7 @@ def classify(v):
     left to right it does not, and what was observed is what left to right gives: the same positions (clipped to the
     chunk for chunk parents), or - when nothing was returned - an EmptyLocationException although left to right leaves
     nothing on the haplotype / an InvalidPositionException although it reaches past the end of the alternative sequence
-    (for a transcript the CDS it carries is examined as well, because it is incorporated first).  Anything else - single
+    (for a transcript the CDS it carries is examined as well, because it is incorporated by the same call - and vice versa).  Anything else - single
     variants, SNV-only sets, sets whose only length change is the last variant, alternative-sequence strings, strand /
     sequence disagreements on correct positions, other exceptions, failures the re-ordering does not explain - stays a
     violation."""
